@@ -194,22 +194,30 @@ def main(run):
         nloss = steps * (2 + d * max(n_inner, 4) + d) + 10
         seq = gen(random.Random(rnd.randrange(2 ** 31)), nloss, pattern, mag, offset)
         seed = rnd.randrange(2 ** 31)
-        names = [f"f{j}" for j in range(d)]
+        names = [[f"f{j}" for j in range(d)], [3, 0, 2, 1][:d], [2.5, -1, "b", 0][:d]][r % 3]     # (list order differs from set / sorted order)
         results = []
+        exact_var = None
         for exact in (False, True):
             if exact and cls is IncrementalPFI:
                 # independent exact reference for PFI, straight from the statement: contribution = mean of the n inner losses
                 # of a feature minus the original loss (losses are consumed in call order), then the exact running statistic
                 it = iter(seq)
                 stat = {nm: Fraction(0) for nm in names}
+                vstat = {nm: Fraction(0) for nm in names}
                 a_x = Fraction(alpha)
                 for t in range(1, steps):
                     n_used = 4 if t % 5 == 4 else n_inner
                     l0 = Fraction(next(it))
+                    cs = {}
                     for nm in names:
                         c = sum(Fraction(next(it)) for _ in range(n_used)) / n_used - l0
+                        cs[nm] = c
                         stat[nm] = (1 - a_x) * stat[nm] + a_x * c if dyn else stat[nm] + (c - stat[nm]) / t
+                    for nm in names:      # variance: running statistic of the squared deviation from the UPDATED estimate
+                        dv = (cs[nm] - stat[nm]) ** 2
+                        vstat[nm] = (1 - a_x) * vstat[nm] + a_x * dv if dyn else vstat[nm] + (dv - vstat[nm]) / t
                 results.append({nm: Q(v) for nm, v in stat.items()})
+                exact_var = vstat
                 continue
             random.seed(seed)
             np.random.seed(seed)
@@ -248,6 +256,14 @@ def main(run):
                 run.violation("non-finite", f"{tag}: importance {fl[nm]!r} variance {fvar[nm]!r}", replay)
             elif err > bound:
                 run.violation("explainer-error", f"{tag}: |float - exact| = {float(err):.3g} > bound {bound:.3g} for {nm}", replay)
+            elif exact_var is not None:
+                # the variance estimate against its exact value: squares of deviations of size <= 2*max|loss|, same accumulation bound
+                verr = abs(Fraction(float(fvar[nm])) - exact_var[nm])
+                vbound = 16 * EPS * (2 * mxl) ** 2 * (d + 2) * max(steps, 2 / alpha if dyn else steps)
+                run.ok(kind="explainer-variance-bounds")
+                if verr > vbound:
+                    run.violation("explainer-error", f"{tag}: variance of {nm!r}: |float - exact| = {float(verr):.3g} > bound {vbound:.3g} "
+                                                     f"(float {float(fvar[nm])!r}, exact {float(exact_var[nm])!r})", replay)
         run.nontriv(("expl", cls.__name__, dyn, alpha, d, n_inner, pattern, mag, offset))
         if len(run.samples) < 3:
             run.sample({**replay, "float_importance": fl, "exact_importance": {k: float(v) for k, v in ex.items()}, "bound": bound})
